@@ -164,7 +164,9 @@ def main(argv):
         cov["extraction_drops"] = "nothing: cargo kani compiles /repo's working-tree sources unmodified (copied to a scratch crate); inserted text = contract attribute lines + one appended `mod` item per harness module"
         ht = prop.get("harness_timeout", {}).get(tier, 600 if tier == "quick" else 3600)
         flags = list(prop.get("kani_flags", []))
-        rc, out, wall, data, cmd = vlib.run_kani(crate, harnesses, jobs, ht, flags)
+        kenv = {"VERIF_BUDGET": "3" if tier == "thorough" else "2"}
+        rc, out, wall, data, cmd = vlib.run_kani(crate, harnesses, jobs, ht, flags, env_extra=kenv)
+        cov["interference_budget"] = int(kenv["VERIF_BUDGET"])
         res = vlib.classify(data, out, harnesses, None)
         undecided += res["undecided"]
         failed = res["failed"]
